@@ -10,7 +10,7 @@ from .gen_bytes import build_object, code_chunks, expand, objects
 # columns of 8..15 bytes and no continuation lines), or no byte column at all (--no-show-raw-insn)
 LAYOUT_ASSUMPTION = 'listings without the byte column (--no-show-raw-insn) are generated with function symbols only: under an STT_OBJECT symbol objdump prints a data dump whose ASCII column is all that is left there (`   0:\\tret` for 72 65 74) and no reader can tell it from an instruction line'
 LAYOUT_RULE = 'in the layouts objdump itself offers: default (7 bytes per line + continuation lines), -w and --insn-width=8/11/15 (8-15 bytes on one line, no continuation lines), --no-show-raw-insn and -w --no-show-raw-insn (no byte column), -r and -w -r (relocation records of relocatable objects on lines of their own / appended to the instruction line)'
-ALL_LAYOUTS = ["default", "default", "default", "default", "default", "wide", "insn-width-8", "insn-width-11", "insn-width-15", "no-raw", "no-raw", "wide-no-raw", "reloc", "wide-reloc", "wide-reloc"]
+ALL_LAYOUTS = ["default", "default", "default", "default", "default", "wide", "insn-width-8", "insn-width-11", "insn-width-15", "no-raw", "no-raw", "wide-no-raw", "reloc", "wide-reloc", "wide-reloc", "wide-reloc"]
 
 
 @st.composite
@@ -18,8 +18,10 @@ def sources(draw, max_chunks=24, layouts=("default",)):
     kind = draw(st.sampled_from(["blob64", "blob64", "blob64", "blob32", "object", "object", "blob16"]))
     layout = draw(st.sampled_from(list(layouts))) if len(layouts) > 1 else layouts[0]
     extra = {"layout": layout} if layout != "default" else {}
+    if "reloc" in layout:
+        kind = "object"  # relocation records exist in relocatable objects only
     if kind == "object":
-        obj = draw(objects())
+        obj = draw(objects(want_relocs="reloc" in layout))
         if "no-raw" in layout:
             # objdump dumps the bytes under an STT_OBJECT symbol as data (hex + ASCII column); without the byte column only the ASCII
             # text is left (`   4:\t/`, `   0:\tret` for 72 65 74) and no reader can tell that from an instruction line: outside
